@@ -231,7 +231,8 @@ func c16Write(r *core.Run, e *env, dirs []string, faultDen int, again *c16Writte
 	var err error
 	how := src.Intn(4)
 	id := hostileIDs[src.Intn(len(hostileIDs))]
-	suffix := []string{"", ".json", ".yaml"}[src.Intn(3)]
+	// (an extension in another case is not an extension: ".YAML" gets ".yaml" appended)
+	suffix := []string{"", ".json", ".yaml", "", ".json", ".yaml", ".JSON", ".YAML", ".Yaml", ".yml"}[src.Intn(10)]
 	if src.Bool(1, 6) {
 		// a long, drawn id: the file name comes out 200-255 bytes long, the
 		// longest a directory entry can be (longer names cannot be written at
@@ -241,7 +242,7 @@ func c16Write(r *core.Run, e *env, dirs []string, faultDen int, again *c16Writte
 		// "<vendor>-<class>_<id>" plus the suffix appended below, plus the default
 		// extension if the result has none: never more than 255 bytes
 		room := 255 - len(m.Vendor) - len(m.Class) - 2 - len(ext) - len(suffix)
-		if ext == "" && suffix == "" {
+		if tail := ext + suffix; !strings.HasSuffix(tail, ".json") && !strings.HasSuffix(tail, ".yaml") {
 			room -= len(".yaml")
 		}
 		n := room - src.Intn(12)
